@@ -146,8 +146,8 @@ def cli_case(case, env):
 def check(tier, seed, t0):
     common.build_harness()
     common.build_rg()
-    total = 300 if tier == "quick" else 20000
-    rep = common.merge_reports([("cli", common.run_cli_cases("c19", cli_case, seed, "c19", total, 19 if tier == "quick" else 150))])
+    total = 2000 if tier == "quick" else 80000
+    rep = common.merge_reports([("cli", common.run_cli_cases("c19", cli_case, seed, "c19", total, 125 if tier == "quick" else 300))])
     return common.finalize("C19", tier, seed, "exploration", RULE, rep, t0, ASSUME, floor_eval=500, floor_distinct=100)
 
 
